@@ -245,5 +245,5 @@ def cli_cases(draw):
 
 def run(ctx):
     quick = ctx.tier == 'quick'
-    ctx.run_hypothesis('cli_cases', 400 if quick else 6000)
+    ctx.run_hypothesis('cli_cases', 400 if quick else 24000)
     shutil.rmtree(runner.scratch_dir('c19'), ignore_errors=True)
